@@ -25,6 +25,21 @@ func (zzLogger) Fatal(msg string, args ...interface{})        {}
 
 type zzMetrics struct{ types.Metrics }
 
+// zzNewDynUpdater builds the updater the way the instance does (newDynUpdater), so that whatever
+// the constructor initialises is there.
+func zzNewDynUpdater(cfg *config, sock socket.HAProxySocket) *dynUpdater {
+	inst := CreateInstance(zzLogger{}, InstanceOptions{Metrics: zzMetrics{}}).(*instance)
+	if sock != nil {
+		inst.conns.dynUpdate = sock
+	}
+	if cfg != nil {
+		inst.config = cfg
+	} else {
+		inst.Config()
+	}
+	return inst.newDynUpdater()
+}
+
 func (zzMetrics) HAProxySetServerResponseTime(time.Duration)  {}
 func (zzMetrics) HAProxySetSSLCertResponseTime(time.Duration) {}
 
@@ -227,7 +242,7 @@ func VerifC02_BackendPair() {
 		oldCookies[ep.Name] = ep.CookieValue
 		oldLabels[ep.Name] = ep.Label
 	}
-	d := &dynUpdater{logger: zzLogger{}, socket: sock, metrics: zzMetrics{}}
+	d := zzNewDynUpdater(nil, sock)
 	updated := d.checkBackendPair(&backendPair{old: old, cur: cur})
 
 	if sock.bad {
